@@ -13,6 +13,7 @@
 From Coq Require Import List Arith Bool.
 Import ListNotations.
 From SAV.event Require Import Events EventsProofs EventsTheorems ExecOnce ExecOnceProofs.
+From SAV.event Require Import ExecOnceWrap ExecOnceWrapProofs EventsProp EventsPropProofs.
 
 (* ------------------------------------------------------------------ every sequence in the guarded region *)
 Theorem c28_dispatch_calls_exactly_registered_guarded : forall ops, guard sinit ops = true ->
@@ -219,3 +220,83 @@ Proof.
   eexists. eexists. split; [vm_compute; reflexivity|]. split; [|split; reflexivity].
   intros p Hp. cbn in Hp. destruct Hp as [<-|[<-|[]]]; reflexivity.
 Qed.
+
+(* ------------------------------------------------------------------ propagation (_update) and the two registry maps
+   [prun pinit ops] is the model of instance-level listen / remove / contains / dispatch together with
+   insts[j].dispatch._update(insts[i].dispatch) and BOTH registry maps (_key_to_collection as p_fwd,
+   _collection_to_key as p_rev); [pguard pinit ops = true] = no function object ever occurs twice in one
+   collection. *)
+(* the forward and the reverse registry map hold the same associations after every operation *)
+Theorem c28_registry_maps_agree_guarded : forall ops, pguard pinit ops = true ->
+  let st := fst (prun pinit ops) in
+  forall k o a, In (k, o, a) (p_fwd st) <-> In (o, a, k) (p_rev st).
+Proof. exact registry_maps_agree. Qed.
+Print Assumptions c28_registry_maps_agree_guarded.
+
+(* what the harness observes of the two maps (PSnapshot) is equal *)
+Theorem c28_snapshot_maps_equal_guarded : forall ops nf l l', pguard pinit ops = true ->
+  snd (pstep (fst (prun pinit ops)) (PSnapshot nf)) = PMaps l l' -> l = l'.
+Proof. exact snapshot_maps_equal. Qed.
+Print Assumptions c28_snapshot_maps_equal_guarded.
+
+(* every listener of every collection, however many _update hops it went through, is known to the
+   registry for that collection - and nothing else is *)
+Theorem c28_propagated_listeners_registered_guarded : forall ops, pguard pinit ops = true ->
+  let st := fst (prun pinit ops) in
+  forall j c a, get_coll st j = Some c -> (In a (idents c) <-> exists k, In (k, j, a) (p_fwd st)).
+Proof. exact propagated_listeners_registered. Qed.
+Print Assumptions c28_propagated_listeners_registered_guarded.
+
+(* event.remove() reaches every copy: it succeeds, contains() is false afterwards and every listener
+   any collection still holds is registered there under another (target, fn) pair *)
+Theorem c28_remove_reaches_every_copy_guarded : forall ops i f, pguard pinit ops = true ->
+  let st := fst (prun pinit ops) in
+  snd (pstep st (PContains i f)) = POut (OBool true) ->
+  let st' := fst (pstep st (PRemove i f)) in
+  snd (pstep st (PRemove i f)) = POut OOk /\
+  snd (pstep st' (PContains i f)) = POut (OBool false) /\
+  forall j c a, get_coll st' j = Some c -> In a (idents c) -> exists k, k <> (i, f) /\ In (k, j, a) (p_fwd st').
+Proof. exact remove_reaches_every_copy. Qed.
+Print Assumptions c28_remove_reaches_every_copy_guarded.
+
+Theorem c28_propagation_no_internal_error_guarded : forall ops, pguard pinit ops = true ->
+  existsb internal (snd (prun pinit ops)) = false.
+Proof. exact propagation_no_internal_error. Qed.
+Print Assumptions c28_propagation_no_internal_error_guarded.
+
+(* outside the guard: f listened on instance 0 (propagate), copied to 1, listened on 1 too, copied to 2;
+   the maps disagree, and after remove() on 0 and on 1 neither contains() is true but 2 still calls f *)
+Definition c28_fp : flags := {| fl_insert := false; fl_prop := true; fl_once := false; fl_wrap := false |}.
+Definition c28_dupfn : list pop :=
+  [PNewInst; PNewInst; PNewInst; PListen 0 0 c28_fp; PUpdate 1 0 true; PListen 1 0 c28_fp; PSnapshot 1;
+   PUpdate 2 1 true; PRemove 0 0; PRemove 1 0; PContains 0 0; PContains 1 0; PDispatch 2].
+Theorem c28_propagation_duplicate_fn_refuted :
+  pguard pinit c28_dupfn = false /\
+  nth 6 (snd (prun pinit c28_dupfn)) (POut OOk)
+    = PMaps [true; false; false; true; true; false; false; false; false]
+            [true; false; false; false; true; false; false; false; false] /\
+  skipn 8 (snd (prun pinit c28_dupfn))
+    = [POut OOk; POut OOk; POut (OBool false); POut (OBool false); POut (OCalls [0])].
+Proof. vm_compute. repeat split; reflexivity. Qed.
+Print Assumptions c28_propagation_duplicate_fn_refuted.
+
+(* non-vacuity: three propagation hops, then removal on the original target *)
+Definition c28_chain : list pop :=
+  [PNewInst; PNewInst; PNewInst; PNewInst; PListen 0 0 c28_fp; PListen 0 1 c28_fl; PUpdate 1 0 true; PUpdate 2 1 true;
+   PUpdate 3 2 true; PDispatch 3; PRemove 0 0; PContains 0 0; PDispatch 3; PDispatch 1].
+Example c28_chain_guarded :
+  pguard pinit c28_chain = true /\
+  skipn 9 (snd (prun pinit c28_chain)) = [POut (OCalls [0]); POut OOk; POut (OBool false); POut (OCalls []); POut (OCalls [])].
+Proof. vm_compute. split; reflexivity. Qed.
+
+(* ------------------------------------------------------------------ util.only_once under every interleaving
+   (threads and re-entrant dispatch): the body of a once=True listener is never entered while it is
+   running, and at most once altogether (once per re-armed failure with _once_unless_exception) *)
+Theorem c28_once_listener_at_most_once : forall retry s, wreach retry s ->
+  length (w_in s) <= 1 /\ w_enter s <= 1 + w_fail s /\ (retry = false -> w_enter s <= 1).
+Proof. exact once_listener_at_most_once. Qed.
+Print Assumptions c28_once_listener_at_most_once.
+
+Example c28_once_reentrant_example :
+  exists s, wrun false winit [WEnter 0; WSkip 1; WSkip 2; WExit 0 false; WSkip 3] = Some s /\ w_enter s = 1.
+Proof. eexists. split; [vm_compute; reflexivity|reflexivity]. Qed.
